@@ -158,6 +158,7 @@ func (p *PackageProgress) stageStreamData() error {
 				keys = append(keys, key)
 			}
 			sort.Ints(keys)
+			pack.StreamBody = nil // 重传的包会让文件再次完成 不能在上一次的结果后面继续追加
 			for _, key := range keys {
 				pack.StreamBody = append(pack.StreamBody, pack.OffsetDataRecord[key]...)
 			}
